@@ -1,5 +1,5 @@
 (* C05 - Values a column cannot represent are rejected, never silently altered. *)
-From Verif Require Import Conv Conv_proofs SerializerTables SerTablesSpec DictBuilder UnionBuilder Builder_proofs Refine_proofs Progress_proofs.
+From Verif Require Import Conv Conv_proofs SerializerTables SerTablesSpec DictBuilder UnionBuilder Builder_proofs Refine_proofs Progress_proofs FloatOfInt FloatOfInt_proofs.
 
 (* Full-strength statement (kept visible): on every serialization cell of the run the C01 oracle
    is evaluated inside Coq (accepted => the arrays decode to exactly interp(value); a value outside
@@ -125,9 +125,27 @@ Example C05_nested_out_of_range :
   forall lv, interp f (VStruct [(b "l", VSeq [VInt U16 1; VInt U16 200])]) <> IOk lv.
 Proof. intros f lv. vm_compute. discriminate. Qed.
 
+(* ---- the documented lossy conversions are exactly these: float narrowing and integer-to-float (the C01_int_to_float and C01_float_cast theorems) ----
+   Reading a float column: the same width is handed out bit for bit; a Float32 value read as f64 is exact (it sits on the f64 grid);
+   only a Float64 value read as f32 may round, and then to the nearest f32 (round_scaled_rounded). *)
+Theorem C05_float_read_same_width_is_identity : forall w bits, conv_de_float w w bits = bits.
+Proof. intros [|] bits; reflexivity. Qed.
+
+Theorem C05_float_widening_is_exact : forall m x, (0 < m < 2 ^ 24)%Z -> (-149 <= x)%Z ->
+  exists qe, (qe <= x)%Z /\ round_scaled 53 (-1074) m x = ((m * 2 ^ (x - qe))%Z, qe).
+Proof. exact widen_exact. Qed.
+
+Theorem C05_float_narrowing_is_nearest : forall m x q qe, (0 < m)%Z -> round_scaled 24 (-149) m x = (q, qe) ->
+  (x < Z.max (Z.log2 m + x - 23) (-149))%Z ->
+  (2 * Z.abs (q * 2 ^ (qe - x) - m) <= 2 ^ (qe - x))%Z /\ ((2 * Z.abs (q * 2 ^ (qe - x) - m))%Z = (2 ^ (qe - x))%Z -> Z.even q = true).
+Proof.
+  intros m x q qe Hm H Hx. destruct (round_scaled_rounded 24 (-149) m x q qe ltac:(reflexivity) Hm H Hx) as (_ & _ & H1 & H2). split; assumption.
+Qed.
+
 Print Assumptions C05_unrepresentable_is_rejected.
 Print Assumptions C05_fixed_width_total.
 Print Assumptions C05_bytes_total.
 Print Assumptions C05_ser_int_exact.
 Print Assumptions C05_de_exact.
 Print Assumptions C05_union_unknown_variant.
+Print Assumptions C05_float_narrowing_is_nearest.
